@@ -76,6 +76,11 @@ package lexer
 
 // ---- assumed contract of the one dependency the lexer's logic rests on -----
 
+// Ownership contract of the dependency: a Buffer made from a slice takes that slice over and writes into its
+// array, so it must not be memory the caller can see (parsing does not modify the source it is given).
+//@ extern func bytes::NewBuffer
+//@   requires fresh(buf)
+//@   assigns nothing
 //@ extern func unicode/utf8::DecodeRune
 //@   pure
 //@   ensures 0 <= size && size <= 4 && size <= len(p)
